@@ -112,7 +112,7 @@ def new_case():
 
 
 def _layout(data):
-    if not LAYOUTS_ENABLED or not isinstance(data, np.ndarray) or data.ndim < 1 or data.dtype.hasobject:
+    if not LAYOUTS_ENABLED or type(data) is not np.ndarray or data.ndim < 1 or data.dtype.hasobject:
         return data
     k = _LAYOUT[0] % 3
     _LAYOUT[0] += 1
